@@ -128,6 +128,7 @@ std::string hx(uint32_t v) { char b[16]; std::snprintf(b, sizeof b, "%08x", v); 
 
 struct Teleport { uint64_t at; uint32_t pc, a, b, o; bool hasMem; uint32_t maddr, mval; bool hasSp = false; uint32_t sp = 0; };
 struct Pulse { uint64_t at; unsigned len; };
+struct ClockJump { uint64_t at; uint64_t cycles; };     // C02: the simulator's cycle counter (its own clock) jumps
 
 // Systematic part of the search: one instruction byte against every combination of the corner
 // values below, one instruction per combination (teleport, step, compare).
@@ -166,6 +167,7 @@ struct PlanView {
   unsigned resetLen = 1;
   std::vector<Teleport> teleports;
   std::vector<Pulse> pulses;
+  std::vector<ClockJump> jumps;
   std::string simin[8]; bool siminPresent[8] = {};
   std::string simoutPre[8]; bool simoutPrePresent[8] = {};
   bool dirtyArena = false; uint64_t arenaSeed = 0;
@@ -186,6 +188,7 @@ PlanView view(const Json &plan) {
     else if (k == "poweron") { v.hasPoweron = true; v.poweron = op.getU64("seed"); }
     else if (k == "reset") v.resetLen = 1 + (unsigned)(op.getU64("len") % 4);
     else if (k == "reset_pulse") v.pulses.push_back({op.getU64("at"), 1 + (unsigned)(op.getU64("len") % 3)});
+    else if (k == "clock_jump") v.jumps.push_back({op.getU64("at"), op.getU64("cycles")});
     else if (k == "teleport") {
       Teleport t;
       t.at = op.getU64("at");
@@ -357,6 +360,18 @@ public:
     }
     if (mode == "c02") {
       if (r.chance(1, 2)) { Json op = Json::object(); op["op"] = "arena"; op["seed"] = (unsigned long long)(r.next() >> 16); ops.push(op); }
+      // Simulated-time jumps: the cycle counter lands just below a power of two that a narrower
+      // counter type would not hold (no instruction may notice).
+      if (r.chance(1, 3)) {
+        unsigned n = 1 + (unsigned)r.below(2);
+        for (unsigned k = 0; k < n; k++) {
+          static const unsigned bits[] = {8, 15, 16, 24, 31, 32, 32, 33, 48, 62};
+          Json op = Json::object(); op["op"] = "clock_jump";
+          op["at"] = (unsigned long long)r.below(maxSteps < 200 ? maxSteps : 200);
+          op["cycles"] = (unsigned long long)((1ull << bits[r.below(10)]) - r.below(6));
+          ops.push(op);
+        }
+      }
       if (fFiles) {
         unsigned n = 1 + (unsigned)r.below(3);
         for (unsigned k = 0; k < n; k++) {
@@ -530,6 +545,7 @@ public:
     uint64_t step = 0;
     bool ended = false;
     for (; step < v.maxSteps; step++) {
+      for (auto &j : v.jumps) if (j.at == step) { p->verifSetCycles((size_t)j.cycles); sim::g_log.ev("clock_jump", step, j.cycles); o.count("fault.clock_jump"); }
       while (ti < v.teleports.size() && v.teleports[ti].at <= step) {
         const Teleport &t = v.teleports[ti++];
         ref.pc = t.pc; ref.areg = t.a; ref.breg = t.b; ref.oreg = t.o;
